@@ -70,6 +70,37 @@ pub enum UnitSpec {
 }
 
 impl UnitSpec {
+    /// make every efficiency map constant (publish path and solve path then agree exactly)
+    pub fn flatten_maps(&mut self) {
+        let flat = |m: &mut MapSpec| {
+            let e = m.etas[0];
+            m.etas.iter_mut().for_each(|x| *x = e);
+        };
+        match self {
+            UnitSpec::Conv { fc, gen, edrv, .. } => {
+                let e = fc.etas[0];
+                fc.etas.iter_mut().for_each(|x| *x = e);
+                flat(gen);
+                flat(edrv);
+            }
+            UnitSpec::Bel { res, edrv, .. } => {
+                let e = res.values[0][0][0];
+                res.values.iter_mut().flatten().flatten().for_each(|x| *x = e);
+                flat(edrv);
+            }
+        }
+    }
+    pub fn harmonise_ratings(&mut self) {
+        match self {
+            UnitSpec::Conv { fc, gen, edrv, .. } => {
+                gen.pwr_max = gen.pwr_max.max(fc.pwr_max);
+                edrv.pwr_max = edrv.pwr_max.max(gen.pwr_max);
+            }
+            UnitSpec::Bel { res, edrv, .. } => {
+                edrv.pwr_max = edrv.pwr_max.max(res.pwr_max);
+            }
+        }
+    }
     pub fn is_bel(&self) -> bool {
         matches!(self, UnitSpec::Bel { .. })
     }
@@ -285,6 +316,10 @@ pub fn gen_res(g: &mut Gen, base_pwr: f64) -> ResSpec {
 pub fn gen_unit(g: &mut Gen, force_kind: Option<bool>) -> UnitSpec {
     let bel = force_kind.unwrap_or_else(|| g.bool(0.45));
     let base = (g.grid(0.3e6, 6.0e6, 57) / 1000.0).round() * 1000.0;
+    gen_unit_with_base(g, bel, base)
+}
+
+pub fn gen_unit_with_base(g: &mut Gen, bel: bool, base: f64) -> UnitSpec {
     let aux_offset = g.grid(0.0, 60.0e3, 12);
     let aux_coeff = g.grid(0.0, 0.02, 20);
     if bel {
